@@ -114,3 +114,96 @@ Proof.
   intros r Hr. pose proof (proj1 (forallb_forall _ _) grid_ok r Hr) as H.
   now apply andb_true_iff in H.
 Qed.
+
+(* ---------- histories of builds on one Requester ---------- *)
+Lemma build_step_wire host port st : fst (build_step host port st) = build host port (request_of st).
+Proof. reflexivity. Qed.
+
+(* what build() leaves behind: everything but .headers is untouched, in particular .path is
+   still the unquoted path and .qargs the same dict *)
+Lemma build_step_keeps host port st :
+  let st' := snd (build_step host port st) in
+  s_method st' = s_method st /\ s_path st' = s_path st /\ s_qargs st' = s_qargs st /\
+  s_body st' = s_body st /\ s_data st' = s_data st /\ s_fargs st' = s_fargs st /\
+  s_headers st' = final_headers (request_of st).
+Proof. cbn. repeat split. Qed.
+
+(* every build of a history sends exactly the request its arguments and the carried-over
+   attributes describe *)
+Lemma history_wire host port : forall ops st,
+  Forall (fun rw => snd rw = build host port (fst rw)) (history host port st ops).
+Proof.
+  induction ops as [|a ops IH]; intros st; cbn [history build_step].
+  - constructor; [reflexivity|constructor].
+  - constructor; [reflexivity|]. apply IH.
+Qed.
+
+(* the request of the (i+1)-th build: given fields replace, the others are those of the i-th
+   request (headers: as build i left them), body / data / fargs never carry over *)
+Lemma next_request host port st a :
+  let r := request_of st in
+  let r' := request_of (reinit (snd (build_step host port st)) a) in
+  q_method r' = match a_method a with Some m => m | None => q_method r end /\
+  q_path r' = match a_path a with Some p => p | None => q_path r end /\
+  q_qargs r' = match a_qargs a with Some q => q | None => q_qargs r end /\
+  q_headers r' = match a_headers a with Some h => h | None => final_headers r end /\
+  q_body r' = match a_data a, a_fargs a with
+              | Some e, _ => Json e
+              | None, Some f => Form f
+              | None, None => Raw (match a_body a with Some b => b | None => [] end)
+              end.
+Proof. cbn. repeat split. Qed.
+
+Lemma history_roundtrip o host port ops st :
+  Forall (fun rw => roundtrip o host port (fst rw) = true ->
+                    exists p, parse_request o (snd rw) = Ok p /\ recovered (fst rw) p = true)
+         (history host port st ops).
+Proof.
+  eapply Forall_impl; [|apply history_wire].
+  intros [r w] Hw Hr. cbn [fst snd] in *. subst w. unfold roundtrip in Hr.
+  destruct (parse_request o (build host port r)) as [p|k]; [|discriminate].
+  exists p. split; [reflexivity|exact Hr].
+Qed.
+
+(* finite grid of histories: 36 first requests x all sequences of at most two rebuilds from 6 *)
+Definition no_args : rargs :=
+  {| a_method := None; a_path := None; a_qargs := None; a_headers := None;
+     a_body := None; a_data := None; a_fargs := None |}.
+Definition h_ops : list rargs :=
+  [ no_args;
+    {| a_method := Some (str "POST"); a_path := None; a_qargs := None; a_headers := None;
+       a_body := Some (str "x y%"); a_data := None; a_fargs := None |};
+    {| a_method := None; a_path := Some (str "/c d/%25" ++ [8364]); a_qargs := None; a_headers := None;
+       a_body := None; a_data := None; a_fargs := None |};
+    {| a_method := None; a_path := None; a_qargs := Some [(str "q ", str "%&=")]; a_headers := None;
+       a_body := None; a_data := Some (str "{}"); a_fargs := None |};
+    {| a_method := Some (str "PUT"); a_path := None; a_qargs := None;
+       a_headers := Some [(str "x-UPPER", str "v: w")];
+       a_body := None; a_data := None; a_fargs := Some [(str "k&", [233; 43])] |};
+    {| a_method := Some (str "GET"); a_path := None; a_qargs := Some []; a_headers := None;
+       a_body := None; a_data := None; a_fargs := None |} ].
+Definition h_first : list request :=
+  flat_map (fun m => flat_map (fun p => flat_map (fun q => map (fun b =>
+    {| q_method := m; q_path := p; q_qargs := q; q_headers := [(str "Accept", str "a/b")]; q_body := b |})
+    [Raw []; Json (str "{""a"":1}"); Form [(str "a&b", str "c=d&e")]])
+    [[]; [(str "sp ace", [233]); (str "%41", str "%")]])
+    [str "/docs/annual report.txt"; str "/" ++ [233] ++ str "/100%/%41"; str "/"])
+    (map str ["GET"; "POST"]%string).
+Definition h_seqs : list (list rargs) :=
+  [[]] ++ map (fun a => [a]) h_ops ++ flat_map (fun a => map (fun b => [a; b]) h_ops) h_ops.
+Definition h_grid : list (request * list rargs) :=
+  flat_map (fun r => map (fun s => (r, s)) h_seqs) h_first.
+
+Definition history_ok (rs : request * list rargs) : bool :=
+  forallb (fun rw => wf_request (fst rw) &&
+                     match parse_request o0 (snd rw) with
+                     | Ok p => recovered (fst rw) p
+                     | Exc _ => false
+                     end)
+          (history ghost 8080 (state_of (fst rs)) (snd rs)).
+
+Lemma h_grid_ok : forallb history_ok h_grid = true.
+Proof. vm_compute. reflexivity. Qed.
+
+Lemma h_grid_roundtrip : forall rs, In rs h_grid -> history_ok rs = true.
+Proof. intros rs H. exact (proj1 (forallb_forall _ _) h_grid_ok rs H). Qed.
